@@ -19,6 +19,8 @@ import LinVerif.Lemmas.C15Merge
 import LinVerif.Lemmas.C15Version
 import LinVerif.Lemmas.C15Open
 import LinVerif.Lemmas.C15Cache
+import LinVerif.Lemmas.C15Roaring
+import LinVerif.Lemmas.C15Stream
 import LinVerif.Generated.C15
 
 namespace LinVerif.Props.C15
@@ -752,7 +754,206 @@ theorem merge_tables_all_entries (K : KeySetOps B) (hK : K.Lawful) (tables : Lis
   obtain ⟨_, _, _, _, hrepr⟩ := hrest (hok items hmem).1 (hok items hmem).2.1 (hok items hmem).2.2
   exact (List.pairwise_map.mp hrepr.asc).imp (fun h => Nat.le_of_lt h)
 
+/-! ## Round 10: container layouts, the stream-writer protocol per operation, heap.Push, sorted merge -/
+
+/-- **tie_goroot_heap.** Go's `container/heap` as it is compiled into lindb (GOROOT of the local
+toolchain, re-read on every run), statement for statement: what `Model/MergedIter.lean` transcribes as
+`heapInit`, `heapPush(Finish)`, `heapPopPrepare`, `heapFix`, `up`, `downLoop/down`. (`j1 < 0` in
+`down` is Go's int-overflow guard; the model counts in `Nat`.) -/
+theorem tie_goroot_heap :
+    Generated.C15.goHeapInitStmts = ["n := h.Len()", "for i := n/2 - 1; i >= 0; i-- { down(h, i, n) }"] ∧
+    Generated.C15.goHeapPushStmts = ["h.Push(x)", "up(h, h.Len()-1)"] ∧
+    Generated.C15.goHeapPopStmts = ["n := h.Len() - 1", "h.Swap(0, n)", "down(h, 0, n)", "return h.Pop()"] ∧
+    Generated.C15.goHeapFixStmts = ["if !down(h, i, h.Len()) { up(h, i) }"] ∧
+    Generated.C15.goHeapUpStmts =
+      ["for { i := (j - 1) / 2 if i == j || !h.Less(j, i) { break } h.Swap(i, j) j = i }"] ∧
+    Generated.C15.goHeapDownStmts =
+      ["i := i0",
+       "for { j1 := 2*i + 1 if j1 >= n || j1 < 0 { break } j := j1 if j2 := j1 + 1; j2 < n && h.Less(j2, j1) { j = j2 } if !h.Less(j, i) { break } h.Swap(i, j) i = j }",
+       "return i > i0"] :=
+  ⟨rfl, rfl, rfl, rfl, rfl, rfl⟩
+
+/-- **tie_roaring_rank.** The roaring module lindb is built with (version from go.mod, source from the
+module cache, re-read on every run): `Bitmap.Rank`'s loop over the containers and `Bitmap.Contains`
+as `Model/C15Roaring.lean` transcribes them (`rankLoop`, `contains`), and the two container `rank`s
+whose results `arrRank` / `runRank` compute. -/
+theorem tie_roaring_rank :
+    Generated.C15.roaringVersion = "v1.2.1" ∧
+    Generated.C15.roaringRankStmts =
+      ["size := uint64(0)",
+       "for i := 0; i < rb.highlowcontainer.size(); i++ { key := rb.highlowcontainer.getKeyAtIndex(i) if key > highbits(x) { return size } if key < highbits(x) { size += uint64(rb.highlowcontainer.getContainerAtIndex(i).getCardinality()) } else { return size + uint64(rb.highlowcontainer.getContainerAtIndex(i).rank(lowbits(x))) } }",
+       "return size"] ∧
+    Generated.C15.roaringContainsStmts =
+      ["hb := highbits(x)", "c := rb.highlowcontainer.getContainer(hb)", "return c != nil && c.contains(lowbits(x))"] ∧
+    Generated.C15.roaringArrayRankStmts =
+      ["answer := binarySearch(ac.content, x)", "if answer >= 0 { return answer + 1 }", "return -answer - 1"] ∧
+    Generated.C15.roaringRunRankStmts =
+      ["n := int(len(rc.iv))", "xx := int(x)", "w, already, _ := rc.search(xx)", "if w < 0 { return 0 }",
+       "if !already && w == n-1 { return rc.getCardinality() }", "var rnk int",
+       "if !already { for i := int(0); i <= w; i++ { rnk += rc.iv[i].runlen() } return int(rnk) }",
+       "for i := int(0); i < w; i++ { rnk += rc.iv[i].runlen() }", "rnk += int(x-rc.iv[w].start) + 1",
+       "return int(rnk)"] :=
+  ⟨rfl, rfl, rfl, rfl, rfl⟩
+
+/-- **rank_any_container_layout.** For EVERY well-formed container layout of the key bitmap — any
+number of containers, any high keys, any mix of array, bitmap and run containers — the
+container-structured `Bitmap.Rank` (cardinalities of the lower containers + the container's own
+rank) is the number of members ≤ x, `Contains` is membership, `GetCardinality` the number of
+members, and the iteration is strictly ascending: the flat contract `KeySetOps.Lawful`
+(`rank_eq`, `contains_iff`, `card_eq`) that `table_get` assumes is a theorem about the container
+structure, not an assumption about it. -/
+theorem rank_any_container_layout (L : C15Roaring.Layout) (h : C15Roaring.WF L) :
+    (∀ x, C15Roaring.rank L x = (C15Roaring.members L).countP (fun m => decide (m ≤ x))) ∧
+    (∀ x, C15Roaring.contains L x = true ↔ x ∈ C15Roaring.members L) ∧
+    C15Roaring.card L = (C15Roaring.members L).length ∧
+    (C15Roaring.members L).Pairwise (· < ·) :=
+  ⟨C15Roaring.rank_spec L h, C15Roaring.contains_spec L h, C15Roaring.card_spec L h, C15Roaring.members_asc L h⟩
+
+/-- **get_index_any_container_layout.** `Get`'s offset index: whatever container layout `L` the
+reader's key bitmap has (after `RunOptimize`, after unmarshalling, dense, sparse, across 65536
+boundaries), for the i-th entry of the table `int(Rank(key)) - 1` computed container by container
+is i, and `getBlock` at that index delivers the entry's exact bytes; a cached per-container base
+(`rankCached`: prefix sum of the cardinalities before the container) gives the same number. -/
+theorem get_index_any_container_layout (K : KeySetOps B) (r : Reader B) (es : List (Nat × Bytes))
+    (hrepr : TableRepr K r es) (L : C15Roaring.Layout) (hL : C15Roaring.WF L)
+    (hmem : C15Roaring.members L = es.map (·.1)) (i : Nat) (e : Nat × Bytes) (he : es[i]? = some e) :
+    C15Roaring.rank L e.1 = i + 1 ∧
+    r.offsets.getBlock ((C15Roaring.rank L e.1 : Int) - 1) r.entries = .ok e.2 ∧
+    (∀ c, C15Roaring.rankCached L e.1 = some c → c = i + 1) ∧
+    (K.Lawful → K.rank r.keys e.1 = C15Roaring.rank L e.1) := by
+  have hk : (C15Roaring.members L)[i]? = some e.1 := by rw [hmem]; simp [he]
+  have hr := C15Roaring.rank_of_ith L hL i e.1 hk
+  refine ⟨hr, ?_, ?_, ?_⟩
+  · rw [hr]
+    have : ((i + 1 : Nat) : Int) - 1 = (i : Int) := by omega
+    rw [this]; exact getBlock_repr hrepr i e he
+  · intro c hc; rw [C15Roaring.rankCached_spec L hL e.1 c hc, hr]
+  · intro hK
+    rw [hK.rank_eq, hrepr.keys, ← hmem, ← C15Roaring.rank_spec L hL]
+
+/-- **stream_protocol_refines.** The builder per single operation: every sequence of `Add`,
+`StreamWriter()`, `Prepare`, `Write`, `Commit` that stays inside the interface's protocol
+(`Spec.run` is defined: no `Add`/`Prepare`/`StreamWriter()` while an ACCEPTED key is open; everything
+else is allowed — rejected keys with any number of `Write`s, `Write`/`Commit` with no stream open,
+a second `Commit`) runs without a panic, and if it ends with no stream open the builder holds
+exactly the specification's entries: lookups, iteration and min/max/count of the closed file are
+those of `s.es` (`Inv` is what `table_get` … `table_meta` are derived from). -/
+theorem stream_protocol_refines (K : KeySetOps B) (hK : K.Lawful) (ops : List Op) (s : Spec)
+    (hrun : Spec.run {} ops = some s) :
+    ∃ b, Builder.run K (Builder.init K) ops = some b ∧ Refines K b s ∧
+      (s.ph = .idle → s.es ≠ [] → (∀ e ∈ s.es, e.1 < 4294967296) → SizeOK s.es →
+        ∃ file r, b.close K = some file ∧ Reader.open K file = some r ∧
+          (∀ e ∈ s.es, r.get K e.1 = .ok e.2) ∧
+          (∀ k, (∀ e ∈ s.es, e.1 ≠ k) → r.get K k = .absent) ∧
+          r.iterate K = s.es ∧
+          b.count K = s.es.length) := by
+  obtain ⟨b, h1, h2⟩ := refines_run hK ops (refines_init K hK) hrun
+  refine ⟨b, h1, h2, ?_⟩
+  intro hidle hne hkeys hsz
+  obtain ⟨es, ph⟩ := s
+  simp only at hidle; subst hidle
+  have hinv : Inv K b es := h2
+  obtain ⟨file, r, hc, ho, hrepr⟩ := inv_close_open hK hinv hne hkeys hsz
+  exact ⟨file, r, hc, ho, fun e he => get_present hK hrepr e he, fun k hk => get_absent hK hrepr k hk,
+    iterate_eq hrepr, (meta_of_inv hK hinv).1⟩
+
+/-- **stream_bytes_exact.** The bytes of an accepted key are exactly what was streamed between its
+`Prepare` and its `Commit`: for ANY protocol-conforming operations `pre` before and `post` after the
+group `Prepare k; Write w₁ … Write wₙ; Commit` (including rejected keys whose `Write`s carry data,
+in `pre` and in `post`), if k is accepted (above the last key kept by `pre`) the finished table
+returns `w₁ ++ … ++ wₙ` for k — nothing of an earlier or later rejected key's data, nothing
+missing — and every entry kept before the group is still returned unchanged. -/
+theorem stream_bytes_exact (K : KeySetOps B) (hK : K.Lawful) (pre post : List Op) (k : Nat) (ws : List Bytes)
+    (s0 s : Spec) (hpre : Spec.run {} pre = some s0) (hidle0 : s0.ph = .idle) (hfresh : Fresh s0.es k)
+    (hpost : Spec.run { es := s0.es ++ [(k, ws.flatten)], ph := .idle } post = some s) (hidle : s.ph = .idle)
+    (hkeys : ∀ e ∈ s.es, e.1 < 4294967296) (hsz : SizeOK s.es) :
+    ∃ b file r,
+      Builder.run K (Builder.init K) (pre ++ (Op.prepare k :: (ws.map Op.write ++ [Op.commit])) ++ post) = some b ∧
+      b.close K = some file ∧ Reader.open K file = some r ∧
+      r.get K k = .ok ws.flatten ∧
+      (∀ e ∈ s0.es, r.get K e.1 = .ok e.2) := by
+  obtain ⟨es0, ph0⟩ := s0
+  simp only at hidle0; subst hidle0
+  have hgroup : Spec.run { es := es0, ph := .idle } (Op.prepare k :: (ws.map Op.write ++ [Op.commit])) =
+      some { es := es0 ++ [(k, ws.flatten)], ph := .idle } := by
+    have hf : freshB es0 k = true := (freshB_iff es0 k).mpr hfresh
+    simp only [Spec.run, Spec.step, hf, if_true]
+    rw [Spec.run_append, Spec.run_writes]
+    simp [Spec.run, Spec.step]
+  have hall : Spec.run {} (pre ++ (Op.prepare k :: (ws.map Op.write ++ [Op.commit])) ++ post) = some s := by
+    rw [Spec.run_append, Spec.run_append, hpre]
+    simp only [Option.bind]
+    rw [hgroup]
+    exact hpost
+  have hpfx := Spec.run_prefix post hpost
+  have hmem : ∀ e ∈ es0 ++ [(k, ws.flatten)], e ∈ s.es := fun e he => hpfx.subset he
+  have hne : s.es ≠ [] := by
+    intro h0
+    have := hmem (k, ws.flatten) (by simp)
+    rw [h0] at this; simp at this
+  obtain ⟨b, h1, _, h3⟩ := stream_protocol_refines K hK _ s hall
+  obtain ⟨file, r, hc, ho, hget, _, _, _⟩ := h3 hidle hne hkeys hsz
+  refine ⟨b, file, r, h1, hc, ho, ?_, ?_⟩
+  · exact hget (k, ws.flatten) (hmem _ (by simp))
+  · intro e he; exact hget e (hmem e (by simp [he]))
+
+/-- **stream_rejected_key_leaves_no_byte.** A `Prepare` of a key that is not above the last kept key,
+followed by any `Write`s and a `Commit`, leaves the specification state — hence (by
+`stream_protocol_refines`) every lookup, the iteration and the file bytes — exactly as it was:
+none of the rejected key's data reaches the file. -/
+theorem stream_rejected_key_leaves_no_byte (es : List (Nat × Bytes)) (k : Nat) (ws : List Bytes)
+    (hstale : ¬ Fresh es k) :
+    Spec.run { es := es, ph := .idle } (Op.prepare k :: (ws.map Op.write ++ [Op.commit])) =
+      some { es := es, ph := .idle } := by
+  have hf : freshB es k = false := by
+    cases h : freshB es k with
+    | false => rfl
+    | true => exact absurd ((freshB_iff es k).mp h) hstale
+  simp only [Spec.run, Spec.step, hf, Bool.false_eq_true, if_false]
+  rw [Spec.run_append, Spec.run_writes_idle]
+  simp [Spec.run, Spec.step]
+
+/-- **heap_push_spec.** `heap.Push` (the stdlib's `h.Push(x); up(h, h.Len()-1)`) on a heap gives a
+heap of the old cells plus the new one — the same result as lindb's `pq.Push(item); pq.update(item)`. -/
+theorem heap_push_spec (pq : PQ) (x : MergedIter.Item) (hh : IsHeapPQ pq) :
+    ((heapPush pq x).map core).Perm (core x :: pq.map core) ∧ IsHeapPQ (heapPush pq x) ∧
+    pqUpdate (pqPush pq x) (pq.length : Int) = some (heapPush pq x) := by
+  obtain ⟨h1, h2⟩ := heapPush_spec pq x hh
+  refine ⟨h1, h2, ?_⟩
+  unfold pqUpdate; simp [heapPush_eq_fix]
+
+/-- **merge_is_the_sorted_merge.** For any number N of inputs, each non-decreasing by key: the keys
+the merged iterator delivers are exactly the sorted list of all input keys (`List.mergeSort`), and
+the delivered pairs are a permutation of all input pairs. -/
+theorem merge_is_the_sorted_merge (its : List Input) (hs : ∀ it ∈ its, SortedInput it) :
+    (mergeAll its).map (·.1) = (its.flatten.map (·.1)).mergeSort (fun a b => decide (a ≤ b)) ∧
+    (mergeAll its).Perm its.flatten := by
+  obtain ⟨hperm, hsorted⟩ := merge_sorted_perm its hs
+  refine ⟨?_, hperm⟩
+  apply List.Perm.eq_of_pairwise (le := fun a b : Nat => a ≤ b)
+  · intro a b _ _ h1 h2; omega
+  · exact List.pairwise_map.mpr hsorted
+  · have := List.pairwise_mergeSort (le := fun a b : Nat => decide (a ≤ b))
+      (by intro a b c h1 h2; simp at *; omega) (by intro a b; simp; omega) (its.flatten.map (·.1))
+    exact this.imp (by intro a b h; simpa using h)
+  · exact (hperm.map (·.1)).trans (List.mergeSort_perm _ _).symm
+
 /-! ## the hypotheses are satisfiable (non-vacuity) -/
+
+/-- a three-container layout (array, run crossing nothing, bitmap stand-in) is well-formed; its rank at a
+container start, inside a run and past the end -/
+example :
+    let L : C15Roaring.Layout := [(0, .array [3, 9]), (1, .run [(0, 2), (10, 0)]), (65535, .bitmap [65535])]
+    C15Roaring.members L = [3, 9, 65536, 65537, 65538, 65546, 4294967295] ∧
+    (C15Roaring.rank L 65536, C15Roaring.rank L 65540, C15Roaring.rank L 4294967295, C15Roaring.rankCached L 65546)
+      = (3, 5, 7, some 6) := by decide
+
+/-- an operation sequence inside the protocol with a rejected stream key that carries data, a write with
+no stream open and a double commit -/
+example :
+    Spec.run {} [Op.add 5 [1], Op.write [7], Op.prepare 3, Op.write [9, 9], Op.commit, Op.prepare 8, Op.write [2],
+      Op.write [3], Op.commit, Op.commit, Op.add 8 [4]] = some { es := [(5, [1]), (8, [2, 3])], ph := .idle } := by
+  decide
 
 /-- two overlapping tables exist, open, and merge to all five entries -/
 example :
@@ -871,6 +1072,30 @@ theorem abandoned_bytes_may_parse_as_a_table :
       (fun img => (Builder.run listKeySet (Builder.init listKeySet) [Op.add 5 img]).map
         (fun b => (Reader.open listKeySet (b.closePartial listKeySet 0)).isSome)) = some true := by
   decide
+
+/-- why `HasNext` pops and pushes: advancing the top item in place and re-fixing the heap only when
+`pq[1]` is smaller (seeded change c15-22) is wrong for three or more inputs, because the second
+smallest key of a binary heap may sit in slot 2 — inputs [1,4], [5], [2] come out as 1, 4, 2, 5 -/
+theorem inplace_top_advance_checking_slot_1_only_is_unordered :
+    (MIter.drainInPlace 10 (MIter.new [[(1, []), (4, [])], [(5, [])], [(2, [])]])).map (·.1) = [1, 4, 2, 5] ∧
+    (mergeAll [[(1, []), (4, [])], [(5, [])], [(2, [])]]).map (·.1) = [1, 2, 4, 5] ∧
+    ((MIter.new [[(1, []), (4, [])], [(5, [])], [(2, [])]]).pq.map (·.key)) = [1, 5, 2] := by decide
+
+/-- the cached container base taken as the inclusive `Rank` of the container's first possible key
+(seeded change c15-19) is one too large exactly when that key is stored: layout {65536, 65537} -/
+theorem cached_base_by_inclusive_rank_is_off_by_one :
+    let L : C15Roaring.Layout := [(0, .array [7]), (1, .array [0, 1])]
+    C15Roaring.rank L 65537 = 3 ∧ C15Roaring.rankCached L 65537 = some 3 ∧
+    C15Roaring.rankCachedInclusive L 65537 = some 4 := by decide
+
+/-- what the moved key check of seeded change c15-21 would have to preserve, on the model of the
+real code: the data of a rejected stream key reaches no value — key 5 keeps its one byte -/
+theorem rejected_stream_key_data_is_dropped :
+    ((Builder.run listKeySet (Builder.init listKeySet)
+        [Op.add 5 [1], Op.prepare 3, Op.write [9, 9], Op.commit, Op.add 8 [4]]).bind
+      (fun b => (b.close listKeySet).bind (fun f => (Reader.open listKeySet f).map
+        (fun r => (r.get listKeySet 5, r.get listKeySet 3, r.get listKeySet 8))))) =
+      some (GetRes.ok [1], GetRes.absent, GetRes.ok [4]) := by decide
 
 end Neg
 
